@@ -46,4 +46,28 @@ theorem cmpArr_cells_native : ∀ (xs ys : List Cell), xs.length = ys.length →
       rw [Cell.native_agrees x y hxb hyb o h]
       cases o <;> simp_all [Ordering.then]
 
+/-- `R` holds between neighbours (what one learns from looking at a sorted output pair by pair) -/
+def Adjacent {α : Type} (R : α → α → Prop) : List α → Prop
+  | [] => True
+  | [_] => True
+  | a :: b :: l => R a b ∧ Adjacent R (b :: l)
+
+theorem Adjacent.pairwise {α : Type} {R : α → α → Prop} (htr : ∀ a b c, R a b → R b c → R a c) :
+    ∀ l : List α, Adjacent R l → l.Pairwise R
+  | [], _ => List.Pairwise.nil
+  | [_], _ => by simp
+  | a :: b :: l, h => by
+    have ih := Adjacent.pairwise htr (b :: l) h.2
+    refine List.Pairwise.cons ?_ ih
+    intro c hc
+    rcases List.mem_cons.1 hc with rfl | hc
+    · exact h.1
+    · exact htr a b c h.1 (List.rel_of_pairwise_cons ih hc)
+
+theorem Adjacent.imp {α : Type} {R S : α → α → Prop} (h : ∀ a b, R a b → S a b) :
+    ∀ l : List α, Adjacent R l → Adjacent S l
+  | [], _ => trivial
+  | [_], _ => trivial
+  | a :: b :: l, hl => ⟨h a b hl.1, Adjacent.imp h (b :: l) hl.2⟩
+
 end Pyg
